@@ -31,6 +31,8 @@ import RV.Base.Proto
     iter d                           -> sorted quads   (`Dataset.__iter__`)
     iadd d s,p,o,G …                 -> ok | AssertionError   (`Dataset.__iadd__`: `ds += quads`)
     graphnew d n                     -> ok       (`ds.graph()` / `graph(None)`: the n-th fresh name, key 200+n)
+    rmgraphnone d n                  -> ok       (`ds.remove_graph(None)`: a graph under a brand-new name, key 300+n)
+    (graph argument `o<k>`: a ConjunctiveGraph object named k, of this or another store — returned as is by `_graph`)
     cerr                             -> ok | raised   (did any store operation of the concrete Memory model raise)
 
   Round g: the driver runs TWO models in lockstep on every line — the Dataset layer over C01's concrete
@@ -78,6 +80,9 @@ def garg? (w : String) : Option (Option GArg) :=
   else if w = "N" then some (some .none)
   else if w.startsWith "i" then (w.drop 1).toNat?.map (fun k => some (.ident k))
   else if w.startsWith "v" then (w.drop 1).toNat?.map (fun k => some (.view k))
+  -- `o<k>`: a ConjunctiveGraph / Dataset OBJECT named k, of this or of another store: `_graph` returns it as is
+  -- (`isinstance(c, (Dataset, ConjunctiveGraph))`), exactly like a same-store Graph object
+  else if w.startsWith "o" then (w.drop 1).toNat?.map (fun k => some (.view k))
   else if w.startsWith "f" then
     match (w.drop 1).toString.splitOn ":" with
     | [k, ts] => do
@@ -223,6 +228,12 @@ def step (s : St) : List String → St × String
     | some true, some n =>
       ({ s with mem := dsGraph (s.cfg true) s.mem (.ident (freshKey n)),
                 cm := Conc.dsGraphFresh (s.cfg true) s.cm (freshKey n) }, "ok")
+    | _, _ => (s, "bad-op")
+  | ["rmgraphnone", w, n] =>
+    match top? w, n.toNat? with
+    | some true, some n =>
+      ({ s with mem := dsRemoveGraph (s.cfg true) s.mem (300 + n),
+                cm := Conc.dsRemoveGraphNone (s.cfg true) s.cm (300 + n) }, "ok")
     | _, _ => (s, "bad-op")
   | ["rmgraph", w, k] =>
     match top? w, k.toNat? with
